@@ -77,6 +77,24 @@ struct Case {
         STATS.hit(std::string("op.") + opn);
         store(R, rf, res);
     }
+    // the same for a factory object (REACHABLE_*(fwd) are functions returning the factory)
+    void binf(const char* opn, binary_factory& op, int a, int b, int rf) {
+        const FS& f = fs[size_t(rf)];
+        dd_edge res(f.F);
+        std::string R = fresh();
+        emit("resforest %s", f.name.c_str());
+        try {
+            apply(op, pool[size_t(a)].e, pool[size_t(b)].e, res);
+        } catch (error& e) {
+            emit("err %s %s %s %s %s", R.c_str(), opn, pool[size_t(a)].name.c_str(), pool[size_t(b)].name.c_str(), errName(e));
+            STATS.hit(std::string("err.") + opn + "." + errName(e));
+            return;
+        }
+        emit("op %s %s %s %s", R.c_str(), opn, pool[size_t(a)].name.c_str(), pool[size_t(b)].name.c_str());
+        emitTable(R, f.name, D, res);
+        STATS.hit(std::string("op.") + opn);
+        store(R, rf, res);
+    }
     void un(const char* opn, unary_builtin0 op, int a, int rf) {
         const FS& f = fs[size_t(rf)];
         dd_edge res(f.F);
@@ -186,6 +204,16 @@ int run(const Args& A) {
                 else if (x < 74) C.un("COMPLEMENT", COMPLEMENT, r.pick(pr), r.pick(rels));
                 else if (x < 80) C.un("COMPLEMENT", COMPLEMENT, r.pick(ps), r.pick(sets));
                 else if (x < 86) C.addOperand(r.chance(1, 2) ? r.pick(sets) : r.pick(rels), false);
+                else if (x < 92) {
+                    // reachability (saturation and breadth-first) with the result in the operand's own forest and an
+                    // identity-reduced relation: the combinations without recorded findings of C08
+                    int a = r.pick(ps), q = r.pick(pr);
+                    if (C.fs[size_t(C.pool[size_t(q)].f)].k.rr == reduction_rule::IDENTITY_REDUCED) {
+                        bool fwd = r.chance(1, 2);
+                        if (r.chance(1, 2)) C.binf(fwd ? "REACH_SAT_FWD" : "REACH_SAT_BWD", REACHABLE_SATUR(fwd), a, q, C.pool[size_t(a)].f);
+                        else C.binf(fwd ? "REACH_NOFS_FWD" : "REACH_NOFS_BWD", REACHABLE_TRAD_NOFS(fwd), a, q, C.pool[size_t(a)].f);
+                    }
+                }
                 else C.housekeeping();
             }
         } else {
